@@ -280,4 +280,161 @@ theorem run_signedSeq_hmove (vt : VTState) (hg : vt.ps = .ground) (r : Int) :
     · have : r = 0 := by omega
       subst this; simp
 
+/-! ### Printable ASCII text -/
+
+/-- What the ground state does with a printable ASCII byte (checked over all 256 byte values). -/
+def asciiClassOk (b : UInt8) : Bool :=
+  !(0x20 ≤ b ∧ b < 0x7f) ||
+  (decide (b ≠ 0x1b) && decide (b ≠ 0x0d) && decide (¬ (b = 0x0a ∨ b = 0x0b ∨ b = 0x0c)) && decide (b ≠ 0x08) &&
+   decide (¬ (b < 0x20 ∨ b = 0x7f)) && decide (b < 0x80) && decide (width b.toNat = 1))
+
+theorem ascii_class_all : (List.range 256).all (fun n => asciiClassOk (UInt8.ofNat n)) = true := by decide +kernel
+
+theorem step_ascii (vt : VTState) (hg : vt.ps = .ground) (b : UInt8) (h1 : 0x20 ≤ b) (h2 : b < 0x7f) :
+    step vt b = vt.put1 b.toNat := by
+  have hb : UInt8.ofNat b.toNat = b := UInt8.ofNat_toNat
+  have := List.all_eq_true.mp ascii_class_all b.toNat (List.mem_range.mpr (UInt8.toNat_lt b))
+  rw [hb] at this
+  simp only [asciiClassOk, h1, h2, and_self, decide_true, Bool.not_true, Bool.false_or, Bool.and_eq_true,
+    decide_eq_true_eq] at this
+  obtain ⟨⟨⟨⟨⟨⟨a1, a2⟩, a3⟩, a4⟩, a5⟩, a6⟩, a7⟩ := this
+  simp only [step, hg, VTState.groundByte, a1, a2, a3, a4, a5, a6, if_true, if_false, VTState.putGlyph, a7]
+
+/-- The cell written by `put1`. -/
+def put1Grid (vt : VTState) (cp : Nat) : Int → Int → Cell :=
+  fun l c => if l = vt.row ∧ c = vt.col then ⟨cp, vt.bg, vt.rv⟩ else vt.grid l c
+
+theorem put1_last (vt : VTState) (cp : Nat) (hpw : vt.pendingWrap = false) (h : vt.col + 1 ≥ vt.cols) :
+    vt.put1 cp = { vt with grid := put1Grid vt cp, pendingWrap := true } := by
+  simp [VTState.put1, hpw, h]; rfl
+
+theorem put1_inner (vt : VTState) (cp : Nat) (hpw : vt.pendingWrap = false) (h : ¬ vt.col + 1 ≥ vt.cols) :
+    vt.put1 cp = { vt with grid := put1Grid vt cp, col := vt.col + 1 } := by
+  simp [VTState.put1, hpw, h]; rfl
+
+/-- Grid after writing the bytes `bs` from the cursor with the current attributes. -/
+def textGrid (bs : List UInt8) (vt : VTState) : Int → Int → Cell := fun l c =>
+  if l = vt.row ∧ vt.col ≤ c ∧ c < vt.col + bs.length then ⟨(bs.getD (c - vt.col).toNat 32).toNat, vt.bg, vt.rv⟩
+  else vt.grid l c
+
+/-- Printable ASCII text that fits in the row: one cell per byte with the current attributes; the cursor ends after
+    the text, or on the last column with the wrap pending when the text ends exactly at the right edge. -/
+theorem run_ascii (bs : List UInt8) (hb : ∀ b ∈ bs, 0x20 ≤ b ∧ b < 0x7f) (hne : bs ≠ []) (vt : VTState)
+    (hg : vt.ps = .ground) (hpw : vt.pendingWrap = false) (hfit : vt.col + bs.length ≤ vt.cols) :
+    run bs vt =
+    { vt with
+      grid := textGrid bs vt,
+      col := if vt.col + bs.length < vt.cols then vt.col + bs.length else vt.cols - 1,
+      pendingWrap := decide (vt.col + bs.length = vt.cols) } := by
+  induction bs generalizing vt with
+  | nil => exact absurd rfl hne
+  | cons b rest ih =>
+    have hb0 := hb b (by simp)
+    rw [run_cons, step_ascii vt hg b hb0.1 hb0.2]
+    simp only [List.length_cons] at hfit
+    by_cases hlast : vt.col + 1 ≥ vt.cols
+    · -- the byte lands on the last column: nothing can follow
+      have hr : rest = [] := by
+        cases rest with
+        | nil => rfl
+        | cons _ _ => simp only [List.length_cons] at hfit; omega
+      subst hr
+      rw [put1_last vt _ hpw hlast, run_nil]
+      apply VTState.ext <;> try rfl
+      · funext l c
+        simp only [put1Grid, textGrid, List.length_cons, List.length_nil]
+        by_cases hc : l = vt.row ∧ c = vt.col
+        · have h2 : l = vt.row ∧ vt.col ≤ c ∧ c < vt.col + ((0 + 1 : Nat) : Int) := by omega
+          have e : (c - vt.col).toNat = 0 := by omega
+          rw [if_pos hc, if_pos h2, e]; rfl
+        · have h2 : ¬ (l = vt.row ∧ vt.col ≤ c ∧ c < vt.col + ((0 + 1 : Nat) : Int)) := by omega
+          rw [if_neg hc, if_neg h2]
+      · simp only [List.length_cons, List.length_nil]
+        rw [if_neg (by omega)]; omega
+      · simp only [List.length_cons, List.length_nil]
+        symm; apply decide_eq_true; omega
+    · rw [put1_inner vt _ hpw hlast]
+      by_cases hr : rest = []
+      · subst hr
+        rw [run_nil]
+        apply VTState.ext <;> try rfl
+        · funext l c
+          simp only [put1Grid, textGrid, List.length_cons, List.length_nil]
+          by_cases hc : l = vt.row ∧ c = vt.col
+          · have h2 : l = vt.row ∧ vt.col ≤ c ∧ c < vt.col + ((0 + 1 : Nat) : Int) := by omega
+            have e : (c - vt.col).toNat = 0 := by omega
+            rw [if_pos hc, if_pos h2, e]; rfl
+          · have h2 : ¬ (l = vt.row ∧ vt.col ≤ c ∧ c < vt.col + ((0 + 1 : Nat) : Int)) := by omega
+            rw [if_neg hc, if_neg h2]
+        · simp only [List.length_cons, List.length_nil]
+          rw [if_pos (by omega)]; omega
+        · simp only [List.length_cons, List.length_nil]
+          rw [hpw]; symm; apply decide_eq_false; omega
+      · have hlen : 1 ≤ rest.length := by
+          cases rest with
+          | nil => exact absurd rfl hr
+          | cons _ _ => simp
+        rw [ih (fun x hx => hb x (by simp [hx])) hr { vt with grid := put1Grid vt b.toNat, col := vt.col + 1 } hg hpw
+          (by simp only []; omega)]
+        apply VTState.ext <;> try rfl
+        · funext l c
+          simp only [put1Grid, textGrid, List.length_cons]
+          by_cases h1 : l = vt.row ∧ vt.col + 1 ≤ c ∧ c < vt.col + 1 + (rest.length : Int)
+          · have h2 : l = vt.row ∧ vt.col ≤ c ∧ c < vt.col + ((rest.length + 1 : Nat) : Int) := by omega
+            have e : (c - vt.col).toNat = (c - (vt.col + 1)).toNat + 1 := by omega
+            rw [if_pos h1, if_pos h2, e, List.getD_cons_succ]
+          · rw [if_neg h1]
+            by_cases h3 : l = vt.row ∧ c = vt.col
+            · have h2 : l = vt.row ∧ vt.col ≤ c ∧ c < vt.col + ((rest.length + 1 : Nat) : Int) := by omega
+              have e : (c - vt.col).toNat = 0 := by omega
+              rw [if_pos h3, if_pos h2, e]; rfl
+            · have h2 : ¬ (l = vt.row ∧ vt.col ≤ c ∧ c < vt.col + ((rest.length + 1 : Nat) : Int)) := by omega
+              rw [if_neg h3, if_neg h2]
+        · simp only [List.length_cons]
+          split <;> split <;> omega
+        · simp only [List.length_cons]
+          congr 1
+          apply propext; constructor <;> intro h <;> omega
+
+/-! ### `scrollrect`: one line of the ICH/DCH strategy, and the goto + IL/DL + DECIC/DECDC core -/
+
+/-- One iteration of the ICH/DCH loop on a screen whose margins contain the cursor target. -/
+theorem run_scrollLine (vt : VTState) (hg : vt.ps = .ground) (line left r : Int)
+    (hl : 0 ≤ line ∧ line < vt.lines) (hc : 0 ≤ left ∧ left < vt.cols)
+    (hm : vt.top ≤ line ∧ line ≤ vt.bottom ∧ vt.left ≤ left ∧ left ≤ vt.right) :
+    run (scrollLine line left r) vt =
+    { vt with
+      grid := fun l c =>
+        if l = line ∧ left ≤ c ∧ c ≤ vt.right then
+          (if left ≤ c + r ∧ c + r ≤ vt.right then vt.grid l (c + r) else vt.blank)
+        else vt.grid l c,
+      row := line, col := left, pendingWrap := false } := by
+  unfold scrollLine
+  rw [run_append, run_gotoAbs_pos vt hg line left hl.1 hc.1, moveTo_in vt line left hl hc, run_signedSeq_rshift]
+  · rw [rshift_eq _ r (by unfold VTState.inMargins; simpa using hm)]
+    rfl
+  · exact hg
+
+/-- The core of the margin strategy: with the margins set to the rectangle, goto its origin, IL/DL, DECIC/DECDC. -/
+theorem run_scrollCore (vt : VTState) (hg : vt.ps = .ground) (rect : Rect) (d r : Int)
+    (hl : 0 ≤ rect.top ∧ rect.top < vt.lines) (hc : 0 ≤ rect.left ∧ rect.left < vt.cols)
+    (hsz : 1 ≤ rect.lines ∧ 1 ≤ rect.cols)
+    (hm : vt.top = rect.top ∧ vt.bottom = rect.bottom - 1 ∧ vt.left = rect.left ∧ vt.right = rect.right - 1) :
+    run (gotoAbs rect.top rect.left ++ signedSeq d [] 0x4d 0x4c ++ signedSeq r [0x27] 0x7e 0x7d) vt =
+    { vt with grid := Spec.scrollGrid rect d r vt, row := rect.top, col := rect.left, pendingWrap := false } := by
+  obtain ⟨m1, m2, m3, m4⟩ := hm
+  have hb : rect.bottom = rect.top + rect.lines := rfl
+  have hrt : rect.right = rect.left + rect.cols := rfl
+  rw [run_append, run_append, run_gotoAbs_pos vt hg rect.top rect.left hl.1 hc.1, moveTo_in vt _ _ hl hc,
+    run_signedSeq_vshift]
+  · rw [vshift_eq _ d (by simp only []; omega) (by unfold VTState.inMargins; simp only []; omega),
+      run_signedSeq_hshift]
+    · rw [hshift_eq _ r (by simp only []; omega) (by unfold VTState.inMargins; simp only []; omega)]
+      apply VTState.ext <;> try rfl
+      funext l c
+      simp only [Spec.scrollGrid, VTState.blank, Cell.blank, m1, m2, m3, m4]
+      cells_omega
+    · exact hg
+  · exact hg
+
 end Tickit.XTermDrv
